@@ -68,7 +68,7 @@ LayerCAgrees(r, prev) ==
       [] OTHER -> TRUE
 Drifted(r) ==
   IF l = 1 \/ r.res.class # "ok" \/ Trace[l - 1].t # r.t \/ r.ev \notin {"MSet", "MRemove", "MPop"}
-     \/ Len(r.kd) # 4 \/ r.kd[1] >= 1000000 \/ ~PlainMapForest(Forest(Trace[l - 1])) \/ ~PlainMapForest(Forest(r)) THEN 0
+     \/ Len(r.kd) # 4 \/ r.kd[1] >= 1000000 \/ r.cfg.builtin \/ ~PlainMapForest(Forest(Trace[l - 1])) \/ ~PlainMapForest(Forest(r)) THEN 0
   ELSE IF LayerCAgrees(r, Trace[l - 1]) THEN 0 ELSE 1
 
 Init == l = 1 /\ dict = <<>> /\ rid = 0 /\ typ = "" /\ limit = 255 /\ committed = <<>> /\ known = FALSE /\ lcalls = 0
@@ -192,7 +192,8 @@ OtherKeys(b) == LET a == b.abs IN [i \in 1..(Len(a) \div 2) |-> a[2 * i - 1].v]
 BatchOK == (l > 1 /\ Cur.ev = "MBatch") =>
   /\ Cur.res.class = "ok" /\ Len(Cur.probe.other) = 1
   /\ LET b == Cur.probe.other[1] IN
-     /\ OtherPairs(b) = Pairs(dict) /\ OtherKeys(b) = CanonKeys(dict) /\ b.n = Len(dict)
+     /\ OtherPairs(b) = Pairs(dict) /\ OtherKeys(b) = ObsKeys(Cur) /\ b.n = Len(dict)      \* the source's content, in the source's order
+     /\ b.lk = Len(dict)                   \* every entry is found by a lookup in the result (not only enumerated)
      /\ ForestPairs(b.F[1]) = Pairs(dict)
      /\ MapWellFormed(b.F[1]) /\ MapSizesAgree(b.F[1])
      /\ b.rid # rid /\ b.ti = typ /\ b.F[1].seed = Forest(Cur).seed
@@ -206,7 +207,7 @@ CopyOK == (l > 1 /\ Cur.ev = "MCopy") =>
   /\ Cur.probe.can = Copyable(Forest(Cur))
   /\ (Cur.probe.can => /\ Cur.res.class = "ok" /\ Len(Cur.probe.other) = 1
                         /\ LET b == Cur.probe.other[1] IN
-                           /\ OtherPairs(b) = Pairs(dict) /\ ForestPairs(b.F[1]) = Pairs(dict)
+                           /\ OtherPairs(b) = Pairs(dict) /\ ForestPairs(b.F[1]) = Pairs(dict) /\ b.lk = Len(dict)
                            /\ MapWellFormed(b.F[1]) /\ MapSizesAgree(b.F[1]) /\ b.rid # rid /\ b.ti = typ /\ ~b.F[1].inl)
   /\ (~Cur.probe.can => Cur.res.class # "ok")
 SourceUnaffected == (l > 1 /\ Cur.ev \in {"MBatch", "MCopy", "MOtherDisposed"}) =>
